@@ -55,6 +55,10 @@ func (m *TapeManager) GetWriter() (config.DriveWriterConfig, error) {
 		overwrite,
 	)
 	if err != nil {
+		// Nothing has been opened, so release the drive again
+		m.closer = nil
+		m.physicalLock.Unlock()
+
 		return config.DriveWriterConfig{}, err
 	}
 
@@ -78,13 +82,17 @@ func (m *TapeManager) GetReader() (config.DriveReaderConfig, error) {
 }
 
 func (m *TapeManager) Close() error {
+	// Always release the drive, even if closing the file fails
+	defer m.physicalLock.Unlock()
+
 	if m.closer != nil {
-		if err := m.closer(); err != nil {
+		closer := m.closer
+		m.closer = nil
+
+		if err := closer(); err != nil {
 			return err
 		}
 	}
-
-	m.physicalLock.Unlock()
 
 	return nil
 }
